@@ -600,14 +600,14 @@ def judge(ctx, c, real, model, build, stats, thread=0):
 
 
 def judge_twins(ctx, cases, results, stats):
-    """par_cases twins (id, id + 1): the outcome of embed must not depend on where the application calls it from.
+    """par_cases twins (`twin` = id of the serial call): the outcome of embed must not depend on where the application calls it from.
     Compared: the outcome class (matrix / which exception) and, on the finiteness stream, finiteness."""
     by_id = {c["id"]: c for c in cases}
     for c in cases:
-        if not c["p"].get("par") or c["id"] - 1 not in by_id:
+        if not c["p"].get("par") or c.get("twin") not in by_id:
             continue
         for b in results:
-            ser, par = results[b].get(c["id"] - 1), results[b].get(c["id"])
+            ser, par = results[b].get(c["twin"]), results[b].get(c["id"])
             if not ser or not par or ser["cls"] not in ("ok", "exc"):
                 continue
             seen = [par] + list(par.get("others", []))
@@ -903,12 +903,12 @@ PAR_ENVS = [("region of 2 threads", 2, {}),
 
 def par_cases(rng, start_id, T, methods=None):
     """the same interior request (a) as a plain serial call and (b) from INSIDE an application's own
-    `omp parallel num_threads(T)` region, once per thread: (id, id + 1) are twins"""
+    `omp parallel num_threads(T)` region, once per thread; the second carries `twin` = id of the first"""
     out = []
     cid = start_id
     for m in (methods or METHODS):
         a = interior_case(rng, cid, m, seed=11)
-        b = dict(a, id=cid + 1, p=dict(a["p"], par=T))
+        b = dict(a, id=cid + 1, twin=cid, p=dict(a["p"], par=T))
         out += [a, b]
         cid += 2
     return out
@@ -1277,8 +1277,9 @@ def replay(ctx, case):
     if c["p"].get("par"):
         # a call from inside a parallel region: its serial twin first (ids 1, 2); the TAPKEE_DEBUG build is left out
         # (its RESTRICT_ALLOC instrumentation is one process-wide Eigen flag)
-        c["id"] = 2
+        c["id"], c["twin"] = 2, 1
         todo = [dict(c, id=1, p={k: v for k, v in c["p"].items() if k != "par"}), c]
+        todo[0].pop("twin", None)
         exes = {"san": exes["san"]}
     model, results = evaluate(ctx, exes, mexe, todo, stats, workers=1)
     print("model (head variant): %s" % model[c["id"]])
